@@ -187,7 +187,7 @@ void Response::toXml(QXmlStreamWriter *writer) const
 std::optional<Success> Success::fromDom(const QDomElement &el)
 {
     if (el.tagName() == u"success" && el.namespaceURI() == ns_sasl) {
-        return Success();
+        return Success { parseBase64(el.text()).value_or(QByteArray()) };
     }
     return {};
 }
@@ -196,6 +196,9 @@ void Success::toXml(QXmlStreamWriter *writer) const
 {
     writer->writeStartElement(QSL65("success"));
     writer->writeDefaultNamespace(toString65(ns_sasl));
+    if (!additionalData.isEmpty()) {
+        writer->writeCharacters(serializeBase64(additionalData));
+    }
     writer->writeEndElement();
 }
 
@@ -1269,6 +1272,16 @@ std::optional<QByteArray> QXmppSaslClientScram::respond(const QByteArray &challe
         warning(u"QXmppSaslClientPlain : Invalid step"_s);
         return {};
     }
+}
+
+bool QXmppSaslClientScram::finish(const QByteArray &additionalData)
+{
+    // the server-final message may be sent as additional data with success
+    if (m_step == 2 && !additionalData.isEmpty()) {
+        return respond(additionalData).has_value();
+    }
+    // success is only valid after the server signature has been verified
+    return m_step == 3;
 }
 
 QXmppSaslClientWindowsLive::QXmppSaslClientWindowsLive(QObject *parent)
